@@ -6,12 +6,14 @@ rule adds are queued whether or not the rule then fails.
 namespace Ecal.Priority.Cascade
 open Ecal.Priority.Book
 
-/-- ids of the started events / of the queued events -/
-def ids (s : St) : List Nat := s.started.map (·.1)
+/-- events taken by the worker / queued events / started (event, rule) pairs -/
+def ids (s : St) : List Nat := s.popped
 def qv (s : St) : List Nat := s.q.items.map (·.val)
+def sr (s : St) : List (Nat × Nat) := s.started.map (·.1)
 
 theorem addEvent_view (cfg : Cfg) (s : St) (idx : Nat) (n : Node) :
     (addEvent cfg s idx n).started = s.started ∧ (addEvent cfg s idx n).errs = s.errs ∧
+    (addEvent cfg s idx n).popped = s.popped ∧
     qv (addEvent cfg s idx n) = if n.trig then qv s ++ [idx] else qv s := by
   unfold addEvent
   cases ht : n.trig <;> simp [qv, PQ.push]
@@ -19,13 +21,14 @@ theorem addEvent_view (cfg : Cfg) (s : St) (idx : Nat) (n : Node) :
 theorem foldl_view (cfg : Cfg) : ∀ (L : List (Node × Nat)) (s : St),
     (L.foldl (fun s p => addEvent cfg s p.2 p.1) s).started = s.started ∧
     (L.foldl (fun s p => addEvent cfg s p.2 p.1) s).errs = s.errs ∧
+    (L.foldl (fun s p => addEvent cfg s p.2 p.1) s).popped = s.popped ∧
     qv (L.foldl (fun s p => addEvent cfg s p.2 p.1) s) = qv s ++ (L.filter (·.1.trig)).map (·.2)
   | [], s => by simp
   | p :: L, s => by
-    obtain ⟨h1, h2, h3⟩ := addEvent_view cfg s p.2 p.1
-    obtain ⟨g1, g2, g3⟩ := foldl_view cfg L (addEvent cfg s p.2 p.1)
+    obtain ⟨h1, h2, h0, h3⟩ := addEvent_view cfg s p.2 p.1
+    obtain ⟨g1, g2, g0, g3⟩ := foldl_view cfg L (addEvent cfg s p.2 p.1)
     simp only [List.foldl_cons]
-    refine ⟨g1.trans h1, g2.trans h2, ?_⟩
+    refine ⟨g1.trans h1, g2.trans h2, g0.trans h0, ?_⟩
     rw [g3, h3]
     cases ht : p.1.trig <;> simp [List.filter_cons, ht]
 
@@ -49,8 +52,63 @@ theorem kids_nodup (nodes : List Node) (sel : Node → Bool) : (kids nodes sel).
 
 theorem addAll_view (cfg : Cfg) (nodes : List Node) (sel : Node → Bool) (s : St) :
     (addAll cfg nodes sel s).started = s.started ∧ (addAll cfg nodes sel s).errs = s.errs ∧
+    (addAll cfg nodes sel s).popped = s.popped ∧
     qv (addAll cfg nodes sel s) = qv s ++ kids nodes sel :=
   foldl_view cfg (kidsOf nodes sel) s
+
+/-- the events added by the action of rule `k` of event `e` -/
+def kidsOfRule (nodes : List Node) (e k : Nat) : List Nat :=
+  kids nodes (fun n => n.parent == some (e, k))
+
+theorem mem_kidsOfRule {nodes : List Node} {e k x : Nat} :
+    x ∈ kidsOfRule nodes e k ↔ ∃ n, nodes[x]? = some n ∧ n.parent = some (e, k) ∧ n.trig = true := by
+  unfold kidsOfRule; rw [mem_kids]; simp
+
+theorem runRules_view (cfg : Cfg) (nodes : List Node) (idx : Nat) : ∀ (ex : List Rule) (s : St),
+    sr (ex.foldl (runRule cfg nodes idx) s) = (ex.map fun r => (idx, r.name)).reverse ++ sr s ∧
+    (ex.foldl (runRule cfg nodes idx) s).errs = s.errs ∧
+    (ex.foldl (runRule cfg nodes idx) s).popped = s.popped ∧
+    qv (ex.foldl (runRule cfg nodes idx) s) = qv s ++ ex.flatMap (fun r => kidsOfRule nodes idx r.name)
+  | [], s => by simp
+  | r :: ex, s => by
+    obtain ⟨v1, v2, v0, v3⟩ := addAll_view cfg nodes (fun n => n.parent == some (idx, r.name))
+      { s with started := ((idx, r.name), highestPriority s.rm) :: s.started }
+    obtain ⟨g1, g2, g0, g3⟩ := runRules_view cfg nodes idx ex (runRule cfg nodes idx s r)
+    simp only [List.foldl_cons]
+    refine ⟨?_, g2.trans v2, g0.trans v0, ?_⟩
+    · rw [g1]; simp only [sr, runRule]; rw [v1]; simp
+    · rw [g3]; simp only [runRule]; rw [v3]; simp [qv, kidsOfRule]
+
+theorem execLoop_sublist (f : Bool) : ∀ (l errs : List Rule), (execLoop f l errs).1.Sublist l
+  | [], _ => by simp [execLoop]
+  | r :: rs, errs => by
+    unfold execLoop
+    simp only
+    repeat' split
+    all_goals first
+      | exact List.Sublist.cons_cons r (List.nil_sublist rs)
+      | exact List.Sublist.cons_cons r (execLoop_sublist f rs _)
+
+/-- names of the rules of event `e` whose action is started / that are in the error map -/
+def execNames (sort : List Rule → List Rule) (flag : Bool) (nodes : List Node) (e : Nat) : List Nat :=
+  (processRules sort flag (rulesOf nodes e)).1.map (·.name)
+def errNames (sort : List Rule → List Rule) (flag : Bool) (nodes : List Node) (e : Nat) : List Nat :=
+  (processRules sort flag (rulesOf nodes e)).2.map (·.name)
+
+theorem rulesOf_names_nodup (nodes : List Node) (e : Nat) : ((rulesOf nodes e).map (·.name)).Nodup := by
+  unfold rulesOf
+  rw [List.map_map]
+  have : ((fun r : Rule => r.name) ∘ fun p : (Int × Bool) × Nat => ({ name := p.2, prio := p.1.1, fails := p.1.2 } : Rule))
+      = Prod.snd := by funext p; rfl
+  rw [this, List.zipIdx_map_snd]
+  exact List.nodup_range' 1
+
+theorem execNames_nodup {sort : List Rule → List Rule} (hs : ∀ l, (sort l).Perm l) (flag : Bool)
+    (nodes : List Node) (e : Nat) : (execNames sort flag nodes e).Nodup := by
+  unfold execNames processRules
+  have h1 : ((sort (rulesOf nodes e)).map (·.name)).Nodup :=
+    ((hs _).map _).nodup_iff.mpr (rulesOf_names_nodup nodes e)
+  exact ((execLoop_sublist flag _ _).map _).nodup h1
 
 theorem minItem_mem : ∀ {l : List Item} {m : Item}, minItem l = some m → m ∈ l
   | [], _, h => by simp [minItem] at h
@@ -104,25 +162,30 @@ theorem map_erase_facts {l : List Item} {a : Item} (hnd : (l.map (·.val)).Nodup
         · exact Or.inr (i2 x hx hne)
 
 /-- the loop invariant -/
-structure LInv (nodes : List Node) (s : St) : Prop where
+structure LInv (sort : List Rule → List Rule) (flag : Bool) (nodes : List Node) (s : St) : Prop where
   n1 : (ids s).Nodup
   n2 : (qv s).Nodup
   n3 : ∀ x ∈ ids s, x ∉ qv s
   bnd : ∀ x, x ∈ ids s ∨ x ∈ qv s → x < nodes.length
-  par : ∀ x, x ∈ ids s ∨ x ∈ qv s → ∀ nx p, nodes[x]? = some nx → nx.parent = some p → p ∈ ids s
-  clo : ∀ i ∈ ids s, ∀ c nc, nodes[c]? = some nc → nc.parent = some i → nc.trig = true →
-          c ∈ ids s ∨ c ∈ qv s
-  err : ∀ i ∈ ids s, (nodes[i]?.map (·.fails)).getD false = true → i ∈ s.errs
+  par : ∀ x, x ∈ ids s ∨ x ∈ qv s → ∀ nx e k, nodes[x]? = some nx → nx.parent = some (e, k) →
+          e ∈ ids s ∧ k ∈ execNames sort flag nodes e
+  trg : ∀ x, x ∈ ids s ∨ x ∈ qv s → ∀ nx, nodes[x]? = some nx → nx.trig = true
+  clo : ∀ e ∈ ids s, ∀ k ∈ execNames sort flag nodes e, ∀ c nc, nodes[c]? = some nc →
+          nc.parent = some (e, k) → nc.trig = true → c ∈ ids s ∨ c ∈ qv s
   ext : ∀ c nc, nodes[c]? = some nc → nc.parent = none → nc.trig = true → c ∈ ids s ∨ c ∈ qv s
+  srs : ∀ e k, (e, k) ∈ sr s ↔ e ∈ ids s ∧ k ∈ execNames sort flag nodes e
+  ers : ∀ e k, (e, k) ∈ s.errs ↔ e ∈ ids s ∧ k ∈ errNames sort flag nodes e
 
-theorem ids_length_le {nodes : List Node} {s : St} (h : LInv nodes s) : (ids s).length ≤ nodes.length := by
+theorem ids_length_le {sort flag} {nodes : List Node} {s : St} (h : LInv sort flag nodes s) :
+    (ids s).length ≤ nodes.length := by
   have := h.n1.length_le_of_subset (l₂ := List.range nodes.length)
     (by intro x hx; exact List.mem_range.mpr (h.bnd x (Or.inl hx)))
   simpa using this
 
-theorem loop_spec (cfg : Cfg) (nodes : List Node) : ∀ fuel (s : St), LInv nodes s →
+theorem loop_spec (cfg : Cfg) (sort : List Rule → List Rule) (hsort : ∀ l, (sort l).Perm l)
+    (flag : Bool) (nodes : List Node) : ∀ fuel (s : St), LInv sort flag nodes s →
     nodes.length + 1 ≤ fuel + (ids s).length →
-    LInv nodes (loop cfg nodes fuel s) ∧ qv (loop cfg nodes fuel s) = [] := by
+    LInv sort flag nodes (loop cfg sort flag nodes fuel s) ∧ qv (loop cfg sort flag nodes fuel s) = [] := by
   intro fuel
   induction fuel with
   | zero =>
@@ -148,82 +211,111 @@ theorem loop_spec (cfg : Cfg) (nodes : List Node) : ∀ fuel (s : St), LInv node
       obtain ⟨hmem, hq'⟩ := hit
       have hidq : it.val ∈ qv s := List.mem_map_of_mem hmem
       obtain ⟨e1, e2⟩ := map_erase_facts h.n2 hmem
-      -- the state after the action has added its children
       simp only
-      generalize hs1 : ({ s with q := q', started := (it.val, highestPriority s.rm) :: s.started } : St) = s1
-      obtain ⟨v1, v2, v3⟩ := addAll_view cfg nodes (fun n => n.parent == some it.val) s1
-      generalize hs2 : addAll cfg nodes (fun n => n.parent == some it.val) s1 = s2 at v1 v2 v3 ⊢
-      have hids1 : ids s1 = it.val :: ids s := by rw [← hs1]; rfl
+      generalize hs1 : ({ s with q := q', popped := it.val :: s.popped } : St) = s1
+      obtain ⟨v1, v2, v0, v3⟩ := runRules_view cfg nodes it.val
+        (processRules sort flag (rulesOf nodes it.val)).1 s1
+      generalize hs2 : List.foldl (runRule cfg nodes it.val) s1
+        (processRules sort flag (rulesOf nodes it.val)).1 = s2 at v1 v2 v0 v3 ⊢
+      generalize hK : (processRules sort flag (rulesOf nodes it.val)).1.flatMap
+        (fun r => kidsOfRule nodes it.val r.name) = K at v3
       have hqv1 : qv s1 = (s.q.items.erase it).map (·.val) := by rw [← hs1]; simp [qv, hq']
+      have hsr1 : sr s1 = sr s := by rw [← hs1]; rfl
       have hsub : ∀ x ∈ qv s1, x ∈ qv s := by
         intro x hx; rw [hqv1] at hx
         exact (List.erase_sublist.map _).subset hx
-      have hkid : ∀ x, x ∈ kids nodes (fun n => n.parent == some it.val) ↔
-          ∃ n, nodes[x]? = some n ∧ n.parent = some it.val ∧ n.trig = true := by
-        intro x; rw [mem_kids]; simp
+      have hkid : ∀ x, x ∈ K ↔ ∃ k ∈ execNames sort flag nodes it.val,
+          ∃ n, nodes[x]? = some n ∧ n.parent = some (it.val, k) ∧ n.trig = true := by
+        intro x
+        rw [← hK, List.mem_flatMap]
+        constructor
+        · rintro ⟨r, hr, hx⟩
+          exact ⟨r.name, List.mem_map_of_mem hr, mem_kidsOfRule.mp hx⟩
+        · rintro ⟨k, hk, hx⟩
+          obtain ⟨r, hr, rfl⟩ := List.mem_map.mp hk
+          exact ⟨r, hr, mem_kidsOfRule.mpr hx⟩
+      have hKnd : K.Nodup := by
+        rw [← hK]
+        unfold List.Nodup
+        rw [List.pairwise_flatMap]
+        refine ⟨fun r _ => kids_nodup _ _, ?_⟩
+        have hn := execNames_nodup hsort flag nodes it.val
+        unfold execNames at hn
+        have hn' := List.pairwise_map.mp hn
+        refine hn'.imp ?_
+        intro a b hab x hx y hy hxy
+        subst hxy
+        obtain ⟨n1, hn1, hp1, _⟩ := mem_kidsOfRule.mp hx
+        obtain ⟨n2, hn2, hp2, _⟩ := mem_kidsOfRule.mp hy
+        rw [hn1] at hn2; cases hn2
+        rw [hp1] at hp2
+        exact hab (by injection hp2 with h1; injection h1)
       have hnotin : it.val ∉ ids s := fun hx => h.n3 _ hx hidq
       -- the final state of this iteration differs from s2 only in rm / errs / bad
-      have key : ∀ s3 : St, ids s3 = it.val :: ids s →
-          qv s3 = qv s1 ++ kids nodes (fun n => n.parent == some it.val) →
-          (s3.errs = if (nodes[it.val]?.map (·.fails)).getD false then it.val :: s.errs else s.errs) →
-          LInv nodes s3 := by
-        intro s3 hids3 hqv3 herr3
-        refine ⟨?_, ?_, ?_, ?_, ?_, ?_, ?_, ?_⟩
+      have key : ∀ s3 : St, ids s3 = it.val :: ids s → qv s3 = qv s1 ++ K →
+          sr s3 = ((processRules sort flag (rulesOf nodes it.val)).1.map fun r => (it.val, r.name)).reverse ++ sr s →
+          s3.errs = (processRules sort flag (rulesOf nodes it.val)).2.map (fun r => (it.val, r.name)) ++ s.errs →
+          LInv sort flag nodes s3 := by
+        intro s3 hids3 hqv3 hsr3 herr3
+        refine ⟨?_, ?_, ?_, ?_, ?_, ?_, ?_, ?_, ?_, ?_⟩
         · rw [hids3]; exact List.nodup_cons.mpr ⟨hnotin, h.n1⟩
         · rw [hqv3, List.nodup_append]
-          refine ⟨by rw [hqv1]; exact (List.erase_sublist.map _).nodup h.n2, kids_nodup _ _, ?_⟩
+          refine ⟨by rw [hqv1]; exact (List.erase_sublist.map _).nodup h.n2, hKnd, ?_⟩
           intro a ha b hb hab
           subst hab
-          obtain ⟨n, hn, hp, _⟩ := (hkid a).mp hb
-          exact hnotin (h.par a (Or.inr (hsub a ha)) n _ hn hp)
+          obtain ⟨k, _, n, hn, hp, _⟩ := (hkid a).mp hb
+          exact hnotin (h.par a (Or.inr (hsub a ha)) n _ _ hn hp).1
         · intro x hx hxq
           rw [hids3] at hx; rw [hqv3, List.mem_append] at hxq
           rcases List.mem_cons.mp hx with rfl | hx
           · rcases hxq with hxq | hxq
             · rw [hqv1] at hxq; exact e1 hxq
-            · obtain ⟨n, hn, hp, _⟩ := (hkid _).mp hxq
-              exact hnotin (h.par _ (Or.inr hidq) n _ hn hp)
+            · obtain ⟨k, _, n, hn, hp, _⟩ := (hkid _).mp hxq
+              exact hnotin (h.par _ (Or.inr hidq) n _ _ hn hp).1
           · rcases hxq with hxq | hxq
             · exact h.n3 x hx (hsub x hxq)
-            · obtain ⟨n, hn, hp, _⟩ := (hkid _).mp hxq
-              exact hnotin (h.par x (Or.inl hx) n _ hn hp)
+            · obtain ⟨k, _, n, hn, hp, _⟩ := (hkid _).mp hxq
+              exact hnotin (h.par x (Or.inl hx) n _ _ hn hp).1
         · intro x hx
           rw [hids3, hqv3, List.mem_cons, List.mem_append] at hx
           rcases hx with (rfl | hx) | (hx | hx)
           · exact h.bnd _ (Or.inr hidq)
           · exact h.bnd x (Or.inl hx)
           · exact h.bnd x (Or.inr (hsub x hx))
-          · obtain ⟨n, hn, _, _⟩ := (hkid _).mp hx
+          · obtain ⟨k, _, n, hn, _, _⟩ := (hkid _).mp hx
             exact (List.getElem?_eq_some_iff.mp hn).1
-        · intro x hx nx p hnx hp
+        · intro x hx nx e k hnx hp
           rw [hids3, hqv3, List.mem_cons, List.mem_append] at hx
           rw [hids3]
           rcases hx with (rfl | hx) | (hx | hx)
-          · exact List.mem_cons_of_mem _ (h.par _ (Or.inr hidq) nx p hnx hp)
-          · exact List.mem_cons_of_mem _ (h.par x (Or.inl hx) nx p hnx hp)
-          · exact List.mem_cons_of_mem _ (h.par x (Or.inr (hsub x hx)) nx p hnx hp)
-          · obtain ⟨n, hn, hp', _⟩ := (hkid _).mp hx
+          · have := h.par _ (Or.inr hidq) nx e k hnx hp
+            exact ⟨List.mem_cons_of_mem _ this.1, this.2⟩
+          · have := h.par x (Or.inl hx) nx e k hnx hp
+            exact ⟨List.mem_cons_of_mem _ this.1, this.2⟩
+          · have := h.par x (Or.inr (hsub x hx)) nx e k hnx hp
+            exact ⟨List.mem_cons_of_mem _ this.1, this.2⟩
+          · obtain ⟨k', hk', n, hn, hp', _⟩ := (hkid _).mp hx
             rw [hnx] at hn; cases hn
             rw [hp] at hp'; cases hp'
-            exact List.mem_cons_self
-        · intro i hi c nc hc hp ht
-          rw [hids3] at hi ⊢
+            exact ⟨List.mem_cons_self, hk'⟩
+        · intro x hx nx hnx
+          rw [hids3, hqv3, List.mem_cons, List.mem_append] at hx
+          rcases hx with (rfl | hx) | (hx | hx)
+          · exact h.trg _ (Or.inr hidq) nx hnx
+          · exact h.trg x (Or.inl hx) nx hnx
+          · exact h.trg x (Or.inr (hsub x hx)) nx hnx
+          · obtain ⟨k', _, n, hn, _, ht⟩ := (hkid _).mp hx
+            rw [hnx] at hn; cases hn; exact ht
+        · intro e he k hk c nc hc hp ht
+          rw [hids3] at he ⊢
           rw [hqv3, List.mem_append]
-          rcases List.mem_cons.mp hi with rfl | hi
-          · exact Or.inr (Or.inr ((hkid c).mpr ⟨nc, hc, hp, ht⟩))
-          · rcases h.clo i hi c nc hc hp ht with hcs | hcq
+          rcases List.mem_cons.mp he with rfl | he
+          · exact Or.inr (Or.inr ((hkid c).mpr ⟨k, hk, nc, hc, hp, ht⟩))
+          · rcases h.clo e he k hk c nc hc hp ht with hcs | hcq
             · exact Or.inl (List.mem_cons_of_mem _ hcs)
             · by_cases hce : c = it.val
               · exact Or.inl (by rw [hce]; exact List.mem_cons_self)
               · exact Or.inr (Or.inl (by rw [hqv1]; exact e2 c hcq hce))
-        · intro i hi hf
-          rw [hids3] at hi; rw [herr3]
-          rcases List.mem_cons.mp hi with rfl | hi
-          · simp [hf]
-          · have := h.err i hi hf
-            split
-            · exact List.mem_cons_of_mem _ this
-            · exact this
         · intro c nc hc hp ht
           rw [hids3, hqv3, List.mem_append]
           rcases h.ext c nc hc hp ht with hcs | hcq
@@ -231,57 +323,80 @@ theorem loop_spec (cfg : Cfg) (nodes : List Node) : ∀ fuel (s : St), LInv node
           · by_cases hce : c = it.val
             · exact Or.inl (by rw [hce]; exact List.mem_cons_self)
             · exact Or.inr (Or.inl (by rw [hqv1]; exact e2 c hcq hce))
-      have hidsF : ∀ (r : RM) (e : List Nat) (b : Bool),
+        · intro e k
+          rw [hsr3, hids3, List.mem_append, List.mem_reverse, List.mem_map, h.srs e k, List.mem_cons]
+          constructor
+          · rintro (⟨r, hr, heq⟩ | ⟨he, hk⟩)
+            · cases heq
+              exact ⟨Or.inl rfl, List.mem_map_of_mem hr⟩
+            · exact ⟨Or.inr he, hk⟩
+          · rintro ⟨rfl | he, hk⟩
+            · obtain ⟨r, hr, rfl⟩ := List.mem_map.mp hk
+              exact Or.inl ⟨r, hr, rfl⟩
+            · exact Or.inr ⟨he, hk⟩
+        · intro e k
+          rw [herr3, hids3, List.mem_append, List.mem_map, h.ers e k, List.mem_cons]
+          constructor
+          · rintro (⟨r, hr, heq⟩ | ⟨he, hk⟩)
+            · cases heq
+              exact ⟨Or.inl rfl, List.mem_map_of_mem hr⟩
+            · exact ⟨Or.inr he, hk⟩
+          · rintro ⟨rfl | he, hk⟩
+            · obtain ⟨r, hr, rfl⟩ := List.mem_map.mp hk
+              exact Or.inl ⟨r, hr, rfl⟩
+            · exact Or.inr ⟨he, hk⟩
+      have hidsF : ∀ (r : RM) (e : List (Nat × Nat)) (b : Bool),
           ids ({ s2 with rm := r, errs := e, bad := b } : St) = it.val :: ids s := by
-        intro r e b; simp only [ids]; rw [v1]; exact hids1
+        intro r e b; simp only [ids]; rw [v0, ← hs1]
       apply ih
       · apply key
         · exact hidsF _ _ _
         · exact v3
+        · show sr s2 = _
+          rw [v1, hsr1]
         · simp only; rw [v2, ← hs1]
       · rw [hidsF]; simp; omega
 
-theorem init_inv (cfg : Cfg) (nodes : List Node) :
-    LInv nodes (addAll cfg nodes (fun n => n.parent.isNone) {}) := by
-  obtain ⟨v1, v2, v3⟩ := addAll_view cfg nodes (fun n => n.parent.isNone) {}
-  have hids : ids (addAll cfg nodes (fun n => n.parent.isNone) {}) = [] := by simp [ids, v1]
+theorem init_inv (cfg : Cfg) (sort : List Rule → List Rule) (flag : Bool) (nodes : List Node) :
+    LInv sort flag nodes (addAll cfg nodes (fun n => n.parent.isNone) {}) := by
+  obtain ⟨v1, v2, v0, v3⟩ := addAll_view cfg nodes (fun n => n.parent.isNone) {}
+  have hids : ids (addAll cfg nodes (fun n => n.parent.isNone) {}) = [] := by simp [ids, v0]
   have hqv : qv (addAll cfg nodes (fun n => n.parent.isNone) {}) = kids nodes (fun n => n.parent.isNone) := by
     rw [v3]; simp [qv]
-  refine ⟨by rw [hids]; simp, by rw [hqv]; exact kids_nodup _ _, by rw [hids]; simp, ?_, ?_,
-    by rw [hids]; simp, by rw [hids]; simp, ?_⟩
-  rotate_left 2
-  · intro c nc hc hp ht
-    rw [hqv]
-    exact Or.inr (mem_kids.mpr ⟨nc, hc, by simp [hp], ht⟩)
+  have hsr : sr (addAll cfg nodes (fun n => n.parent.isNone) {}) = [] := by simp [sr, v1]
+  refine ⟨by rw [hids]; simp, by rw [hqv]; exact kids_nodup _ _, by rw [hids]; simp, ?_, ?_, ?_,
+    by rw [hids]; simp, ?_, by intro e k; rw [hsr, hids]; simp, by intro e k; rw [v2, hids]; simp⟩
   · intro x hx
     rw [hids, hqv] at hx
     rcases hx with hx | hx
     · simp at hx
     · obtain ⟨n, hn, _, _⟩ := mem_kids.mp hx
       exact (List.getElem?_eq_some_iff.mp hn).1
-  · intro x hx nx p hnx hp
+  · intro x hx nx e k hnx hp
     rw [hids, hqv] at hx
     rcases hx with hx | hx
     · simp at hx
     · obtain ⟨n, hn, hsel, _⟩ := mem_kids.mp hx
       rw [hnx] at hn; cases hn
       simp [hp] at hsel
+  · intro x hx nx hnx
+    rw [hids, hqv] at hx
+    rcases hx with hx | hx
+    · simp at hx
+    · obtain ⟨n, hn, _, ht⟩ := mem_kids.mp hx
+      rw [hnx] at hn; cases hn; exact ht
+  · intro c nc hc hp ht
+    rw [hqv]
+    exact Or.inr (mem_kids.mpr ⟨nc, hc, by simp [hp], ht⟩)
 
 /-- the run of a script ends with an empty queue and satisfies the invariant -/
-theorem runScript_spec (cfg : Cfg) (nodes : List Node) :
-    LInv nodes (runScript cfg nodes) ∧ qv (runScript cfg nodes) = [] := by
+theorem runScript_spec (cfg : Cfg) (sort : List Rule → List Rule) (hsort : ∀ l, (sort l).Perm l)
+    (flag : Bool) (nodes : List Node) :
+    LInv sort flag nodes (runScript cfg sort flag nodes) ∧ qv (runScript cfg sort flag nodes) = [] := by
   unfold runScript
-  apply loop_spec cfg nodes _ _ (init_inv cfg nodes)
+  apply loop_spec cfg sort hsort flag nodes _ _ (init_inv cfg sort flag nodes)
   have : ids (addAll cfg nodes (fun n => n.parent.isNone) {}) = [] := by
-    simp [ids, (addAll_view cfg nodes (fun n => n.parent.isNone) {}).1]
+    simp [ids, (addAll_view cfg nodes (fun n => n.parent.isNone) {}).2.2.1]
   rw [this]; simp
-
-theorem external_started (cfg : Cfg) (nodes : List Node) (c : Nat) (nc : Node)
-    (hc : nodes[c]? = some nc) (hp : nc.parent = none) (ht : nc.trig = true) :
-    c ∈ (runScript cfg nodes).started.map (·.1) := by
-  obtain ⟨hI, hq⟩ := runScript_spec cfg nodes
-  rcases hI.ext c nc hc hp ht with h | h
-  · exact h
-  · rw [hq] at h; cases h
 
 end Ecal.Priority.Cascade
